@@ -1,0 +1,17 @@
+//go:build verif
+
+package pgdump
+
+// Verification hooks for dropped.go (add-only, build tag verif).  parseDroppedColumns,
+// parseAllAttributes and buildColumnsWithDropped are already aliased in verif_hooks.go; this
+// file adds the two extended pg_attribute schemas and the dropped-name pattern.
+
+// VerifSchemaPGAttrDropped returns copies of schemaPGAttrDropped and schemaPGAttrDroppedV15.
+func VerifSchemaPGAttrDropped() (v16 []Column, v15 []Column) {
+	return append([]Column(nil), schemaPGAttrDropped...), append([]Column(nil), schemaPGAttrDroppedV15...)
+}
+
+// VerifDroppedColumnSubmatch exposes droppedColumnRegex.FindStringSubmatch.
+func VerifDroppedColumnSubmatch(name string) []string {
+	return droppedColumnRegex.FindStringSubmatch(name)
+}
